@@ -70,11 +70,13 @@ Definition ubf_new (val byte_len : Z) : res ubf :=
   do b <- to_unsigned byte_len val;
   Ok {| ubf_len := byte_len; ubf_val := val; ubf_bytes := b |}.
 
+(* int.from_bytes(b, byteorder="big"): total, 0 on the empty string *)
+Definition int_from_bytes (b : bytes) : Z := be_decode b.
+
 (* _verify_bytes_value *)
 Definition verify_bytes_value (byte_len : Z) (val : bytes) : res (Z * bytes) :=
   check negb (len val <? byte_len) else EValue;
-  do k <- unsigned_struct_specifier byte_len;
-  do int_val <- struct_unpack k (slice val 0 byte_len);
+  let int_val := int_from_bytes (slice val 0 byte_len) in
   do _ <- verify_int_value byte_len int_val;
   Ok (int_val, slice val 0 byte_len).
 
@@ -83,11 +85,18 @@ Definition ubf_set_bytes (f : ubf) (val : bytes) : res ubf :=
   do (v, b) <- verify_bytes_value (ubf_len f) val;
   Ok {| ubf_len := ubf_len f; ubf_val := v; ubf_bytes := b |}.
 
+(* a history of assignments to `value`; a refused assignment raises and leaves the object
+   as it was (both branches verify before they assign) *)
+Inductive ubf_op := SetInt (v : Z) | SetBytes (b : bytes).
+Definition ubf_step (f : ubf) (o : ubf_op) : res ubf :=
+  match o with SetInt v => ubf_set_int f v | SetBytes b => ubf_set_bytes f b end.
+Definition ubf_apply (f : ubf) (o : ubf_op) : ubf :=
+  match ubf_step f o with Ok f' => f' | Err _ => f end.
+
 (* UnsignedByteField.from_bytes(raw) *)
 Definition ubf_from_bytes (raw : bytes) : res ubf :=
-  do k <- unsigned_struct_specifier (len raw);
-  do v <- struct_unpack k raw;
-  ubf_new v (len raw).
+  do _ <- verify_byte_len (len raw);
+  ubf_new (int_from_bytes raw) (len raw).
 
 (* views *)
 Definition ubf_int (f : ubf) : Z := ubf_val f.
